@@ -146,6 +146,7 @@ class AsyncFIXConnection:
             target_comp_id, sender_comp_id
         )
         self._connection_was_active = False
+        self._is_disconnecting = False
         self._msg_buffer = b""
         self._heartbeat_period = heartbeat_period
         self._message_last_time = 0.0
@@ -197,27 +198,38 @@ class AsyncFIXConnection:
             logout_message: if not None, sends Logout() message to peer with
                             (58=logout_message)
         """
-        if self._connection_state > ConnectionState.DISCONNECTED_BROKEN_CONN:
+        if (
+            self._connection_state > ConnectionState.DISCONNECTED_BROKEN_CONN
+            and not self._is_disconnecting
+        ):
             assert disconn_state <= ConnectionState.DISCONNECTED_BROKEN_CONN
-            self._test_req_id = None
-            self._message_last_time = 0.0
-            self._max_seq_num_resend = 0
+            # reader and heartbeat tasks may both get here while this call is
+            #  suspended below, only the first one must go through
+            self._is_disconnecting = True
+            try:
+                self._test_req_id = None
+                self._message_last_time = 0.0
+                self._max_seq_num_resend = 0
 
-            if logout_message is not None:
-                msg = FIXMessage(FMsg.LOGOUT)
-                if logout_message:
-                    # Only add message if logout_message != ""
-                    msg[FTag.Text] = logout_message
-                await self.send_msg(msg)
+                if logout_message is not None:
+                    msg = FIXMessage(FMsg.LOGOUT)
+                    if logout_message:
+                        # Only add message if logout_message != ""
+                        msg[FTag.Text] = logout_message
+                    await self.send_msg(msg)
 
-            self.log.info(f"Client disconnected, with state: {repr(disconn_state)}")
-            if self._socket_writer:
-                self._socket_writer.close()
-                await self._socket_writer.wait_closed()
-            self._socket_writer = None
-            self._socket_reader = None
-            await self._state_set(disconn_state)
-            await self.on_disconnect()
+                self.log.info(
+                    f"Client disconnected, with state: {repr(disconn_state)}"
+                )
+                if self._socket_writer:
+                    self._socket_writer.close()
+                    await self._socket_writer.wait_closed()
+                self._socket_writer = None
+                self._socket_reader = None
+                await self._state_set(disconn_state)
+                await self.on_disconnect()
+            finally:
+                self._is_disconnecting = False
 
     async def send_msg(self, msg: FIXMessage):
         """Sends message to the peer.
